@@ -30,7 +30,7 @@ fn dec(t: &[String]) -> Option<C> {
     Some(C { rev, chunk, threads, comp, tmp, ty, border, xs })
 }
 fn n_chunks(c: &C) -> usize { if c.chunk <= 1 { c.xs.len() } else { c.xs.len().div_ceil(c.chunk) } }
-fn valid(c: &C) -> bool { c.threads >= 1 && n_chunks(c) <= 200 }
+fn valid(c: &C) -> bool { c.threads >= 1 && n_chunks(c) <= 700 }
 
 fn ser<T: Serialize>(x: &T) -> Vec<u8> { bincode::DefaultOptions::new().serialize(x).unwrap() }
 fn de<T: DeserializeOwned>(b: &[u8]) -> Option<T> { bincode::DefaultOptions::new().deserialize(b).ok() }
@@ -42,9 +42,22 @@ pub fn rec_key<B: BEDLike>(b: &B) -> Vec<u64> {
 
 static CASE_NO: std::sync::atomic::AtomicUsize = std::sync::atomic::AtomicUsize::new(0);
 
+/// environment mode of a case = (border / 96) % 3 (such cases run in a child process: the working directory and the
+/// environment are process-wide). 1: the temporary directory is given as a RELATIVE path and the working directory
+/// changes between `build()` and the sort. 2: `TMPDIR` points to a directory that does not exist from `build()` on.
+/// The sorter fixed its directory in `build()`; neither may matter afterwards.
+fn env_mode(c: &C) -> u64 { (c.border / 96) % 3 }
+fn after_build(c: &C) {
+    match env_mode(c) {
+        1 => { std::env::set_current_dir("/").ok(); }
+        2 => { std::env::set_var("TMPDIR", "/nonexistent-verif-tmpdir"); }
+        _ => {}
+    }
+}
+
 fn builder(c: &C) -> (ExternalSorterBuilder, Option<std::path::PathBuf>) {
     let mut dir = None;
-    if c.tmp {
+    if c.tmp || env_mode(c) == 1 {
         let base = std::env::var("VERIF_DIR").unwrap_or_else(|_| "/verif".into());
         let d = std::path::PathBuf::from(base).join(format!("harness/run/sort-{}-{}", std::process::id(), CASE_NO.fetch_add(1, std::sync::atomic::Ordering::SeqCst)));
         std::fs::create_dir_all(&d).ok();
@@ -57,7 +70,11 @@ fn builder(c: &C) -> (ExternalSorterBuilder, Option<std::path::PathBuf>) {
             0 => b.with_chunk_size(c.chunk),
             1 => b.num_threads(c.threads),
             2 => if let Some(l) = c.comp { b.with_compression(l) } else { b },
-            _ => if let Some(d) = &dir { b.with_tmp_dir(d) } else { b },
+            _ => match &dir {
+                Some(d) if env_mode(c) == 1 => { std::env::set_current_dir(d.parent().unwrap()).ok(); b.with_tmp_dir(d.file_name().unwrap()) }
+                Some(d) => b.with_tmp_dir(d),
+                None => b,
+            },
         };
     }
     (b, dir)
@@ -118,6 +135,7 @@ fn run_real<T: Serialize + DeserializeOwned + Send + BEDLike + Clone>(c: &C) -> 
     let recs: Vec<T> = c.xs.iter().map(|x| de::<T>(&x.1)).collect::<Option<Vec<T>>>()?;
     let (b, dir) = builder(c);
     let sorter = b.build().ok()?;
+    after_build(c);
     let rev = c.rev;
     let out = sort_reusing(sorter, recs, move |a: &T, b: &T| if rev { b.compare(a) } else { a.compare(b) }, reuse_mode(c), |x| rec_key(x), |x| ser(x));
     if let Some(d) = dir { std::fs::remove_dir_all(d).ok(); }
@@ -128,7 +146,7 @@ fn run_real<T: Serialize + DeserializeOwned + Send + BEDLike + Clone>(c: &C) -> 
 /// the process, so such cases run in a child of the harness
 fn exec(t: &[String]) -> Option<String> {
     let c = dec(t)?;
-    if c.chunk >= 1 << 28 { return Some(crate::runner::run_in_child("C01", t, &[])); }
+    if c.chunk >= 1 << 28 || env_mode(&c) != 0 { return Some(crate::runner::run_in_child("C01", t, &[])); }
     exec_here(t)
 }
 fn child(t: &[String]) -> String {
@@ -140,6 +158,7 @@ fn exec_here(t: &[String]) -> Option<String> {
         "kv" => {
             let (b, dir) = builder(&c);
             let sorter = b.build().ok()?;
+            after_build(&c);
             let out = sort_reusing(sorter, c.xs.clone(), cmp_key(c.rev), reuse_mode(&c), |x: &SItem| x.0.clone(), |x: &SItem| x.1.clone());
             if let Some(d) = dir { std::fs::remove_dir_all(d).ok(); }
             Some(out)
@@ -149,6 +168,7 @@ fn exec_here(t: &[String]) -> Option<String> {
             let recs: Vec<GenomicRange> = c.xs.iter().map(|x| de::<GenomicRange>(&x.1)).collect::<Option<Vec<_>>>()?;
             let (b, dir) = builder(&c);
             let sorter = b.build().ok()?;
+            after_build(&c);
             let out = emit(sorter.sort(recs), |x| rec_key(x), |x| ser(x));
             drop(sorter);
             if let Some(d) = dir { std::fs::remove_dir_all(d).ok(); }
@@ -227,6 +247,12 @@ fn gen(rng: &mut Rng, tier: Tier) -> Vec<Case> {
             for c in [n, n + 1, 1_000_000, 1 << 33, 1 << 40, usize::MAX / 16, usize::MAX] { let shape = rng.below(6); push("boundary", C { rev: false, chunk: c, threads: *rng.pick(&threads), comp: *rng.pick(&comps), tmp: rng.chance(1, 2), ty: "kv".into(), border: rng.below(24) + 24 * (if rng.chance(1, 3) { rng.range(1, 3) } else { 0 }), xs: kv(rng, n, shape) }); }
         }
     }
+    // the process environment changes between build() and the sort (relative tmp dir + chdir; TMPDIR gone)
+    for i in 0..(match tier { Tier::Quick => 8, Tier::Thorough => 60 }) {
+        let n = rng.range(3, 40) as usize;
+        let shape = rng.below(5);
+        push("environment", C { rev: false, chunk: rng.range(1, 9) as usize, threads: *rng.pick(&threads), comp: *rng.pick(&comps), tmp: i % 4 != 3, ty: "kv".into(), border: rng.below(96) + 96 * (1 + (i % 2)), xs: kv(rng, n, shape) });
+    }
     let nr = match tier { Tier::Quick => 120, Tier::Thorough => 1500 };
     for _ in 0..nr {
         let ty = *rng.pick(&["kv", "gr", "bed6", "np", "bg"]);
@@ -240,6 +266,12 @@ fn gen(rng: &mut Rng, tier: Tier) -> Vec<Case> {
     for (n, chunk, th) in [(5_000usize, 2_500usize, 8usize), (4_100, 4_100, 3)] {
         let xs: Vec<SItem> = (0..n).map(|i| (vec![rng.below(700)], (i as u32).to_be_bytes().to_vec())).collect();
         push("parallel-sort", C { rev: rng.chance(1, 2), chunk, threads: th, comp: Some(4), tmp: true, ty: "kv".into(), border: rng.below(24) + 24 * (if rng.chance(1, 3) { rng.range(1, 3) } else { 0 }), xs });
+    }
+    // many runs: more than 2^8 of them (a fan-in limit, an intermediate merge pass, a u8 run counter); <= 700 because every
+    // run is an open file
+    for (n, chunk) in [(300usize, 1usize), (521, 2), (700, 1)] {
+        let xs: Vec<SItem> = (0..n).map(|i| (vec![rng.below(90)], (i as u32).to_be_bytes().to_vec())).collect();
+        push("many-runs", C { rev: rng.chance(1, 2), chunk, threads: *rng.pick(&threads), comp: *rng.pick(&comps), tmp: rng.chance(1, 2), ty: "kv".into(), border: rng.below(24), xs });
     }
     if tier == Tier::Thorough {
         // large enough for par_sort_unstable_by to take its parallel path
@@ -255,7 +287,7 @@ fn gen(rng: &mut Rng, tier: Tier) -> Vec<Case> {
 pub fn prop() -> PropDef {
     PropDef {
         id: "C01",
-        rule: "corpus, then (a) lengths k*c-1, k*c, k*c+1 for chunk sizes c in {0,1,2,3,7,64} and k <= 4, and chunk sizes n, n+1, 1e6, 2^33, 2^40, usize::MAX/16, usize::MAX for n in {0,1,2,5,50} (chunk sizes from 2^28 run in a child process); (b) random inputs of 0-400 records with chunk sizes n/3, n, 1000, 2..60; inputs sorted / reversed / constant key / 3 keys (many ties) / random / with a 9 KiB and a 70 KiB record; record types (key,payload) compared by key only or reversed, GenomicRange (sort with its Ord, and sort_by), BED<6> with optional fields, NarrowPeak with float fields, BedGraph<f64>; threads in {1,2,3,8,16}, compression in {none,0,1,4,9,16}, explicit or default tmp dir; in a third of the cases the sorter is used for two sorts and the observed one is the first (second sort run and drained while the first result is unread) or the second (first result drained afterwards), or the sorter is dropped before the first item of its result is read; thorough adds inputs of 9e3 to 3e4 records in chunks of 3e3 to 1.2e4 (above rayon's sequential cut-off of 2000). The number of chunks is kept <= 200 (open-file limit). Non-trivial: >= 2 records and (>= 2 runs or a tie under the comparator). Distinct = distinct input token sequence.",
+        rule: "corpus, then (a) lengths k*c-1, k*c, k*c+1 for chunk sizes c in {0,1,2,3,7,64} and k <= 4, and chunk sizes n, n+1, 1e6, 2^33, 2^40, usize::MAX/16, usize::MAX for n in {0,1,2,5,50} (chunk sizes from 2^28 run in a child process); (b) random inputs of 0-400 records with chunk sizes n/3, n, 1000, 2..60; inputs sorted / reversed / constant key / 3 keys (many ties) / random / with a 9 KiB and a 70 KiB record; record types (key,payload) compared by key only or reversed, GenomicRange (sort with its Ord, and sort_by), BED<6> with optional fields, NarrowPeak with float fields, BedGraph<f64>; threads in {1,2,3,8,16}, compression in {none,0,1,4,9,16}, explicit or default tmp dir; in a third of the cases the sorter is used for two sorts and the observed one is the first (second sort run and drained while the first result is unread) or the second (first result drained afterwards), or the sorter is dropped before the first item of its result is read; a few sorts in a child process whose environment changes between build() and the sort (tmp dir given as a relative path and the working directory changed; TMPDIR pointing to a missing directory); thorough adds inputs of 9e3 to 3e4 records in chunks of 3e3 to 1.2e4 (above rayon's sequential cut-off of 2000). three sorts of 300-700 records in runs of 1-2 records (more than 2^8 runs); the number of runs is kept <= 700 (every run is an open file). Non-trivial: >= 2 records and (>= 2 runs or a tie under the comparator). Distinct = distinct input token sequence.",
         observable: "initial len() and the item sequence as (comparator key, full bincode serialisation) or error items; ties compared as classes",
         gen, exec, shrink, child: Some(child),
     }
